@@ -129,3 +129,21 @@ theorem trapz_nonneg (l : List (K × K)) (hx : AscX l) (hy : ∀ p ∈ l, 0 ≤ 
       linarith
 
 end Synphot
+
+namespace Synphot
+variable {K : Type} [Field K] [LinearOrder K] [IsStrictOrderedRing K]
+
+/-- scaling abscissae by `a` and ordinates by `b` scales the trapezoid sum by `a·b`
+(the discrete change of variables behind flux-conserving redshift) -/
+theorem trapz_scale_xy (a b : K) (l : List (K × K)) :
+    trapz (l.map fun p => (a * p.1, b * p.2)) = a * b * trapz l := by
+  induction l with
+  | nil => simp
+  | cons p l ih =>
+    cases l with
+    | nil => simp
+    | cons q l =>
+      simp only [List.map_cons, trapz_cons_cons] at ih ⊢
+      rw [ih]; ring
+
+end Synphot
